@@ -300,6 +300,8 @@ class PX:
             return True
         fr = f.func if isinstance(f, Bound) else f
         if self.inline is not None:
+            if hasattr(self.inline, "caller"):
+                self.inline.caller = getattr(frame, "func", None)  # policies may judge a helper relative to the function that calls it
             return bool(self.inline(fr, awaited))
         return False
 
